@@ -136,7 +136,10 @@ class Check(common.Check):
         if ctl and rng.random() < 0.6:
             for vi in range(rng.randint(1, 3)):
                 r = rng.random()
-                vname = f'v{vi}' if r > 0.08 else 'v' + 'x' * 30
+                if r > 0.2:
+                    vname = f'v{vi}'
+                else:      # around the 32 character limit of `name.variant`
+                    vname = f'v{vi}' + 'x' * (rng.choice([30, 31, 32, 32, 33, 34]) - 4 - len(f'v{vi}'))
                 pairs = []
                 for p in rng.sample(ctl, min(len(ctl), rng.randint(1, 3))):
                     size = len(defaults_of(p, case['specs'])[0])
@@ -433,8 +436,8 @@ class Check(common.Check):
             inc(f"variants:{len(c.get('variants') or [])}")
             if c.get('call') is not None:
                 inc('call')
-            if 'exc' in o:
-                inc('exc:' + o['exc'])
+            if 'exc' in o or 'exc_bytes' in o:
+                inc('exc:' + str(o.get('exc') or o.get('exc_bytes')))
             elif 'parse_error' in o:
                 inc('parse_error')
             else:
